@@ -124,7 +124,9 @@ def dmrg_open(cx):
     rng = cx.rng
     reps = 4 if cx.quick else 120
     kinds = HAM_KINDS_REAL + HAM_KINDS_CPLX
-    caps = ("full", "schedule", "three", "two", "one")
+    # "warmup-down": a schedule whose last entry is not its maximum (warm up wide, then compress down), run for more
+    # sweeps than it has entries: the last entry is the cap that keeps applying
+    caps = ("full", "schedule", "three", "two", "one", "warmup-down")
     for kind, bsz, capk, rep in itertools.product(kinds, (1, 2), caps, range(reps)):
         if not cx.mine():
             continue
@@ -149,7 +151,8 @@ def dmrg_open(cx):
                  cutoffs=str(cut), max_sweeps=nsw, p0=p0k, which=which, rep=rep,
                  # classes of inputs singled out so that known defects can be matched narrowly
                  p0_bond_exceeds_cap=(capk == "one" and p0k.startswith("rand")),
-                 cap_below_phys_dim=(capk == "one" or (capk == "two" and d == 3)),
+                 decreasing_schedule=(capk == "warmup-down"),
+                 cap_below_phys_dim=(capk == "one" or (capk in ("two", "warmup-down") and d == 3)),
                  L_equals_bsz_with_left_sweep=(L == bsz and "L" in seq))
         cache = {}
 
@@ -164,7 +167,8 @@ def dmrg_open(cx):
             herm_defect = float(np.max(np.abs(Hd - Hd.conj().T)))
             ev, evec = np.linalg.eigh((Hd + Hd.conj().T) / 2)
             full = d ** (L // 2)
-            bds = {"full": full, "schedule": [2, 4, max(full, 1)], "three": 3, "two": 2, "one": 1}[capk]
+            bds = {"full": full, "schedule": [2, 4, max(full, 1)], "three": 3, "two": 2, "one": 1,
+                   "warmup-down": [max(full, 4), 2]}[capk]
             cuts = [1e-4, 1e-8, 1e-12] if cut == "schedule" else cut
             qu.seed_rand(seed % (1 << 31))
             if p0k == "default":
